@@ -311,6 +311,26 @@ Theorem C20_script_engine_independent : forall (k1 k2 : ekind) ss,
 Proof. exact script_engine_independent. Qed.
 Print Assumptions C20_script_engine_independent.
 
+(* ===== (6) the schedule quantifier: a reader concurrent with the committing writer ===== *)
+(* commits are atomic steps of the model (the concurrent mode of the harness checks that the engines' are):
+   wherever the reads fall between the writer's operations, each observes the store after exactly the commits
+   that precede it, never anything of the open batch, and the number of commits seen never decreases *)
+Theorem C20_reads_see_commit_prefix : forall evs d,
+  observe d evs = map (state_at d evs) (commits_before_reads 0 evs).
+Proof. exact reads_see_commit_prefix. Qed.
+Print Assumptions C20_reads_see_commit_prefix.
+
+Theorem C20_reads_are_monotone : forall evs i j,
+  let l := commits_before_reads 0 evs in
+  (i < j < length l)%nat -> (nth i l 0 <= nth j l 0)%nat.
+Proof. exact reads_are_monotone. Qed.
+Print Assumptions C20_reads_are_monotone.
+
+Theorem C20_cleared_batch_never_shows : forall d ops evs j,
+  pending d = [] -> state_at d (map EOp ops ++ EClear :: evs) j = state_at d evs j.
+Proof. exact state_at_open_batch. Qed.
+Print Assumptions C20_cleared_batch_never_shows.
+
 (* ---------- non-vacuity ---------- *)
 (* keys "a","b","c": reverse closed [a,c] with offset 1, count 1 yields "b"; the E1 witness yields nothing *)
 Example C20_ex_query :
@@ -326,6 +346,14 @@ Example C20_ex_e1 :
   db_range_limit true true e1_store e1_opts = Some [] /\
   db_range_limit true false e1_store e1_opts = Some [([98%N], [1%N])].
 Proof. exact e1_after_fix. Qed.
+
+(* a reader between two commits sees the first batch completely and nothing of the second *)
+Example C20_ex_schedule :
+  observe db_empty [EOp (BPut [97%N] [1%N]); ERead; EOp (BPut [98%N] [2%N]); ECommit; ERead;
+                    EOp (BDel [97%N]); ERead; EClear; EOp (BPut [99%N] [3%N]); ECommit; ERead]
+  = [[]; [([97%N], [1%N]); ([98%N], [2%N])]; [([97%N], [1%N]); ([98%N], [2%N])];
+     [([97%N], [1%N]); ([98%N], [2%N]); ([99%N], [3%N])]].
+Proof. vm_compute. reflexivity. Qed.
 
 (* the old encoding (key ++ [0]) made "k" a prefix of "k\000..."; the new one does not *)
 Example C20_ex_index_key :
